@@ -110,8 +110,11 @@ fn u_stats(nodes: &[Node]) -> (usize, usize) {
 fn run(c: &mut Case) {
     let spec: Spec = match c.rng.below(10) {
         0..=2 => gen::z_deep(c.rng.urange(3, 7)),
-        3 => gen::z_kitchen(false),
+        3 => gen::z_kitchen(c.rng.chance(1, 2)),
         4 => gen::z_test(),
+        // masters with placeholders in their path (nested in themselves, at any depth, at the top level) in a third of the
+        // random specifications: they keep their unknown size only where what follows ends them unambiguously (fix_unknown)
+        5 | 6 => gen::random_spec(&mut c.rng, &gen::SpecBounds::FULL),
         _ => gen::random_spec(&mut c.rng, &gen::SpecBounds::PLAIN),
     };
     spec.install();
